@@ -1760,6 +1760,9 @@ class SSHOpenSSHCertificate(SSHCertificate):
             elif critical:
                 raise KeyImportError('Unrecognized critical option: ' +
                                      name.decode('ascii', errors='replace'))
+            else:
+                # Skip over the data of extensions we don't recognize
+                packet.get_string()
 
         return result
 
